@@ -310,7 +310,7 @@ def _default(f_type: Type, f_value: Any, config_cls: Type[BaseConfig]) -> Any:
 
     @dataclass
     class CC(DataClassJSONMixin):
-        x: f_type = f_value  # type: ignore
+        x: f_type  # type: ignore
 
         class Config(config_cls):  # type: ignore
             omit_none = False
